@@ -143,6 +143,14 @@ func genWire(r *Rand, g GenCfg) Plan {
 		for v := 0; v < 11; v++ {
 			add(XStep{Op: "hostile", Kind: "match", Val: v})
 		}
+		nt := 60
+		if all {
+			nt = 6
+		}
+		for i := 0; i < nt; i++ {
+			add(XStep{Op: "textmut", Tok: r.Intn(2), Field: Pick(r, []string{"policy", "selector", "selector", "did"}), Kind: Pick(r, []string{"subst", "subst", "insert", "delete", "dup"}),
+				At: r.Intn(4096), Val: int(Pick(r, []byte("[]{}\"'.?:-*0129azAZ \\/,\x00\xff\x80")))})
+		}
 		if !all {
 			tok := r.Intn(2)
 			add(XStep{Op: "trunc_all", Tok: tok, Hi: -1})
